@@ -93,10 +93,14 @@ def xargsUnsafe : List String → Option Classification
 
 def xargsClassify (tokens : List String) : Classification :=
   if tokens.length < 2 then ask "xargs (no command)"
-  else match xargsUnsafe (tokens.drop 1) with
+  else
+    let args := tokens.drop 1
+    let inner := xargsSkip false args
+    -- only xargs's own options (the skipped prefix) are searched for interactive flags
+    match xargsUnsafe (args.take (args.length - inner.length)) with
     | some c => c
     | none =>
-      match xargsSkip false (tokens.drop 1) with
+      match inner with
       | [] => ask "xargs (no command)"
       | inner => delegate (bashJoin inner)
 
